@@ -84,7 +84,7 @@ fn judge(seq: &[usize], baseline: &[Asm]) -> Option<(String, String)> {
 }
 
 pub fn run(ctx: &Ctx) -> i32 {
-    let max_len = ctx.tier.pick(3, 4);
+    let max_len = ctx.tier.pick(4, 5);
     let k = SOURCES.len();
     // Baseline: every source on its own fresh thread, twice (determinism of the oracle itself).
     let mut baseline = Vec::new();
